@@ -37,8 +37,7 @@ def build_tree(nodes, default_env, dcf=None):
     def mk(path, root=False):
         kw = {"env_prefix": "APP", "default_env": default_env, "default_config_files": [dcf] if dcf else None} if root else {}
         p = ArgumentParser(exit_on_error=False, **kw)
-        if root:
-            p.add_argument("--cfg", action=ActionConfigFile)
+        p.add_argument("--cfg", action=ActionConfigFile)   # every parser of the tree has its own config argument
         p.add_argument("--x", type=int, default=0)
         return p
 
@@ -142,6 +141,8 @@ def run_case(case):
                     json.dump(obj, fh)
                 argv += ["--cfg", f]
         for lvl in range(len(inp["argv"]) + 1):
+            if lvl in inp.get("icfg", []):
+                argv.append('--cfg={"x": 4}')
             if lvl in inp["aopt"]:
                 argv.append("--x=3")
             if lvl < len(inp["argv"]):
@@ -233,7 +234,7 @@ def random_input(rnd, nodes):
     if strict:
         aopt = []
     return {"argv": argv, "aopt": aopt, "csel": csel, "csec": [list(p) for p in sorted(csec)], "env": env, "esel": esel, "eopt": eopt, "strict": strict,
-            "dcf": (not strict) and rnd.random() < 0.3}
+            "dcf": (not strict) and rnd.random() < 0.3, "icfg": [l for l in range(1, len(argv) + 1) if rnd.random() < 0.3]}
 
 
 def main(argv):
